@@ -315,6 +315,13 @@ def check_mesh(case, ctx):
 @st.composite
 def _txt_cases(draw, tier):
     d = _ordinary_weights(draw(gen.spline(kinds=("curve", "surface"), max_p=3, max_extra=4, different=True)))
+    if d["kind"] == "surface" and draw(st.integers(0, 3)) == 0:
+        # a net closed in v: the last control point of every row repeats the first one (tubes, surfaces of revolution)
+        nv_ = d["size"][1]
+        d["P"] = [list(d["P"][(i // nv_) * nv_]) if i % nv_ == nv_ - 1 else q for i, q in enumerate(d["P"])]
+        if d["rational"]:
+            d["W"] = [d["W"][(i // nv_) * nv_] if i % nv_ == nv_ - 1 else w for i, w in enumerate(d["W"])]
+        d["closed_v"] = True
     return {"defn": d, "sep": draw(st.sampled_from([",", " ", "\t", ";"])), "col": draw(st.sampled_from([";", "|", ",", " ; "])),
             "two": draw(st.booleans())}
 
@@ -366,11 +373,17 @@ def _compat_cases(draw, tier):
     nu, nv = draw(st.permutations([1, 2, 3, 4, 5]))[:2]
     pts = draw(gen.points(nu * nv, 3, distinct=True))
     W = draw(gen.weights(nu * nv, force="varied"))
-    return {"nu": nu, "nv": nv, "P": pts, "W": W}
+    return {"nu": nu, "nv": nv, "P": pts, "W": W, "thirds": draw(st.booleans())}
 
 
 def check_compat_files(case, ctx):
     nu, nv, P, W = case["nu"], case["nv"], case["P"], case["W"]
+    if case.get("thirds"):
+        # coordinates that need all 17 significant digits (x/3): the files carry them exactly (str/repr round trip)
+        P = [[c / 3.0 for c in q] for q in P]
+        ctx.label("coordinates-with-17-significant-digits")
+    if max(W) < 2.0 ** -20:
+        W = [w * 2.0 ** 30 for w in W]
     ctx.nt(nu != nv, "non-square")
     grid = [[list(P[v + nv * u]) + [W[v + nv * u]] for v in range(nv)] for u in range(nu)]     # (x, y, z, w)
     tmp = _tmpdir()
